@@ -129,6 +129,7 @@ class Analyzer:
         self.weakened = set()  # (array, 'lo'|'hi') that an element write could not be shown to preserve
         self.lemmas = []  # lemma instances used in the prelude (reported)
         self._opaque_cond = False
+        self._wrapping_alloc = set()
 
     # ---------------- expressions
     def is_counter_type(self, t):
@@ -727,7 +728,12 @@ class Analyzer:
             nn = Lin.const(0).le(Lin.var("len_" + lhs.name))
             out = []
             for st in sts:
-                out.append(St.of(list(st) + [nn], st))
+                st2 = St.of(list(st) + [nn], st)
+                if self.cex and not (tname(src) == "NameNode" and src.name in self._wrapping_alloc):
+                    # the length of a buffer obtained from an object this engine cannot size (a helper's return value, a
+                    # cached workspace) is NOT a free input: a "counterexample" that picks it is not a witness
+                    st2.tainted = True
+                out.append(st2)
             return out
         if t in ("Python object", "list object"):
             facts = None
@@ -760,10 +766,25 @@ class Analyzer:
                         self.pylen["pylen_" + lhs.name] = Lin.var(snap)
                         return self.assign(states, snap, e)
                     except Unknown:
-                        pass
+                        # the size is not linear in the counters.  When it is computed from ELEMENT VALUES in a fixed-width
+                        # unsigned C type with a `+ constant` (highest - lowest + 1), it wraps: with 0 and the type's maximum
+                        # both present the sum is 0, and by choice of contents it takes any value - so the length of this
+                        # buffer really is free, and a counterexample that picks it is a witness (see the taint below)
+                        if self._size_wraps(args[0]):
+                            self._wrapping_alloc.add(lhs.name)
             self.pylen.pop("pylen_" + lhs.name, None)
             return states
         return states  # data variable
+
+    def _size_wraps(self, node):
+        for x in walk(node):
+            if tname(x) in ("AddNode", "SubNode"):
+                names = [y for y in walk(x) if tname(y) == "NameNode" and getattr(y, "type", None) is not None]
+                data_unsigned = [y for y in names if not self.is_counter_type(y.type) and str(y.type).replace("const ", "") in ("uint32", "uint64", "unsigned int", "unsigned long", "uint32_t", "uint64_t", "uint16", "uint8")]
+                plus = [y for y in walk(x) if tname(y) == "IntNode" and int(y.value) > 0]
+                if data_unsigned and plus and tname(x) == "AddNode":
+                    return True
+        return False
 
     # ---------------- Python-level prelude: lengths and element bounds of arrays built with NumPy
     def _np_call(self, r):
